@@ -13,6 +13,7 @@ refuse must be unchanged, the later arrival of the missing PSK must make the sam
 acceptable."""
 import json
 
+import re
 from .common import *
 from .histlib import run_scripts
 
@@ -182,7 +183,7 @@ def main(run, args):
     quick = run.tier == "quick"
     items = [ext_script(rng, i) for i in range(16 if quick else 120)] + [res_script(rng, i) for i in range(12 if quick else 100)] + [foreign_script(rng, i) for i in range(4 if quick else 24)]
     recs = run_scripts([x[0] for x in items], timeout=3000)
-    failing, cases = [], []
+    failing, cases, writes = [], [], []
     stats = {"deliveries": 0, "accepted": 0, "refused_missing": 0, "refused_other_value": 0, "retries_ok": 0, "joiners": 0, "foreign": 0}
     for (sc, meta), rs in zip(items, recs):
         if any(r.get("crash") for r in rs):
@@ -193,6 +194,19 @@ def main(run, args):
             failing.append({"what": "PANIC", "script": sc["name"], "record": [r for r in rs if r.get("err") == "PANIC"][0]})
             continue
         special = {k for k, _ in meta["deliveries"]} | ({meta["join"]} if meta["join"] is not None else set()) | {k for k, _ in meta.get("attempts", [])}
+        if meta["kind"] in ("external", "resumption"):
+            # every storage write of a member of the (single) group: inserts, updates, what it had written before
+            written = {}
+            for r in rs:
+                for call in r.get("storage") or []:
+                    mm = re.fullmatch(r"gs\.write\(ins=\[([0-9, ]*)\],upd=\[([0-9, ]*)\]\)", call)
+                    if not mm:
+                        continue
+                    ins = [int(x) for x in mm.group(1).split(",") if x.strip()]
+                    upd = [int(x) for x in mm.group(2).split(",") if x.strip()]
+                    prev = sorted(written.setdefault(r.get("who"), set()))
+                    writes.append((ins, upd, prev, {"script": sc["name"], "member": r.get("who"), "op": r.get("i"), "call": call}))
+                    written[r.get("who")].update(ins)
         for (k, x) in meta.get("attempts", []):
             r = byi.get(k, {})
             pre = byi.get(meta["obs"], {}).get("obs", {})
@@ -277,6 +291,24 @@ def main(run, args):
                 coq_cases += 1
                 if bool(v) != ok:
                     (failing if True else mism).append(dict(ctx, what="a member holding every PSK was refused (commit or build)" if v == 1 else "a member that lacks a PSK, holds another value or no longer retains the referenced epoch ACCEPTED the commit / could build it", model="accept" if v else "refuse"))
+    wf_cases = 0
+    if proofs_ok and writes:
+        lst = lambda l: "[" + "; ".join(str(x) for x in l) + "]"
+        distinct = sorted({(tuple(a), tuple(b), tuple(c)) for a, b, c, _ in writes})
+        text = ("From Coq Require Import NArith List Bool.\nFrom MlsV Require Import PskIdeal.\nImport ListNotations.\nLocal Open Scope N_scope.\n"
+                "Definition wf_write (ins upd st : list N) : N :=\n"
+                "  if repo_wf {| r_gid := 1; r_inserts := map (fun e => (e, e)) ins; r_updates := map (fun e => (e, e)) upd; r_stored := map (fun e => (1, e, e)) st |} then 1 else 0.\n"
+                "Eval vm_compute in [" + ";\n".join(f"wf_write {lst(a)} {lst(b)} {lst(c)}" for a, b, c in distinct) + "].\n")
+        nums, logtxt = coq_eval_cases("C18_writes", text, timeout=600)
+        if nums is None or len(nums) != len(distinct):
+            broken.append(("correspondence", "Coq evaluation of repo_wf failed: " + (logtxt or "")[-500:]))
+        else:
+            verdict = dict(zip(distinct, nums))
+            for a, b, c, ctx in writes:
+                wf_cases += 1
+                if verdict[(tuple(a), tuple(b), tuple(c))] != 1:
+                    broken.append(("bookkeeping", dict(ctx, what="a storage write does not satisfy repo_wf (consecutive inserts, written epochs older than the first insert): the hypothesis of C18_translated_repository_lookup_is_the_model is not met by the library", inserts=a, updates=b, written_before=c)))
+    run.obligation("every observed storage write satisfies the repository bookkeeping repo_wf assumed by the translated lookup", wf_cases > 0 and not any(b[0] == "bookkeeping" for b in broken))
     run.obligation("acceptance of every PSK commit = resolution model; acceptors agree, refusers unchanged, late PSK arrival heals, joiners need the PSKs", not failing and not mism and coq_cases > 0)
     if stats["refused_missing"] < 3 or stats["refused_other_value"] < 2 or stats["accepted"] < 10:
         broken.append(("generator", f"degenerate scenarios: {stats}"))
@@ -287,6 +319,7 @@ def main(run, args):
         "samples": [cases[0][2]] if cases else [],
         "stats": stats,
         "resolution_cases_in_coq": coq_cases,
+        "storage_writes_checked_against_repo_wf": wf_cases,
         "histories": len(items),
     })
     if failing:
